@@ -33,6 +33,7 @@ pub struct Profile {
     pub focus: Focus,
     pub search_values: bool,
     pub cross_type: bool,
+    pub binary_values: bool,
 }
 
 impl Profile {
@@ -44,6 +45,7 @@ impl Profile {
             w_maintain: 0, reads_per_step: 1, exotic_values: false, bad_inputs: true, max_elems: 10,
             variants: vec![Kind::Memory],
             searches_per_step: 0, focus: Focus::Mixed, search_values: false, cross_type: true,
+            binary_values: false,
         };
         let search = |p: &mut Profile, f: Focus| {
             p.searches_per_step = 3; p.focus = f; p.search_values = true; p.reads_per_step = 0;
@@ -67,6 +69,9 @@ impl Profile {
             "search_cond" => search(&mut p, Focus::Conditions),
             "search_slice" => search(&mut p, Focus::Slicing),
             "search_path" => search(&mut p, Focus::Path),
+            // dense graphs whose nodes AND edges carry 0/1 values on three keys: many routes of different length and cost
+            "search_pathcost" => { search(&mut p, Focus::PathCost); p.binary_values = true; p.max_elems = 14; p.w_insert_edges = 30;
+                                   p.w_insert_values = 22; p.w_update_edges = 12; p.w_remove = 4; p.searches_per_step = 12; }
             "search_elem" => search(&mut p, Focus::Elements),
             "search_mixed" => search(&mut p, Focus::Mixed),
             "churn_alias" => { p.w_insert_aliases = 40; p.w_remove_aliases = 25; p.w_update_nodes = 10; p.w_insert_nodes = 6; p.w_remove = 5;
@@ -150,6 +155,9 @@ pub struct Gen<'a> {
 
 impl Gen<'_> {
     fn value(&mut self) -> DbValue {
+        if self.p.binary_values {
+            return DbValue::I64(self.rng.below(2) as i64);
+        }
         if self.p.search_values {
             return search_value(self.rng, self.p.cross_type);
         }
@@ -175,6 +183,13 @@ impl Gen<'_> {
     }
     /// 0..=3 pairs with distinct keys
     fn pairs(&mut self) -> Vec<DbKeyValue> {
+        if self.p.binary_values {
+            // almost every element carries "k" (0 or 1): a condition on it splits the graph into cost-1 and cost-2 elements
+            let mut out = vec![];
+            if self.rng.chance(19, 20) { out.push(DbKeyValue { key: "k".into(), value: self.value() }); }
+            if self.rng.chance(1, 3) { out.push(DbKeyValue { key: "m".into(), value: self.value() }); }
+            return out;
+        }
         let n = self.rng.below(4);
         let mut out: Vec<DbKeyValue> = vec![];
         for _ in 0..n {
@@ -444,6 +459,15 @@ fn read_event(rng: &mut Rng, g_keys: &mut Vec<DbValue>, view: &View, vs: &Varian
         return json!({"ev": "Panic", "query": head, "msg": first["panic"]});
     }
     merge(merge(head, first), json!({"others": outs}))
+}
+
+/// the Observe event of a single database (no other variants)
+pub fn observe_all_pub(db: &DbX) -> Value {
+    match guarded(|| observe(db)) {
+        Ok(Ok(o)) => { let d = digest(&o); merge(o, json!({"digest": d, "others": []})) }
+        Ok(Err(e)) => json!({"ev": "ObserveFailed", "err": e}),
+        Err(p) => json!({"ev": "Panic", "query": "observe", "msg": p}),
+    }
 }
 
 fn observe_all(vs: &Variants) -> Value {
